@@ -43,6 +43,7 @@ func runC09(c *Ctx) {
 	c.rule("C09.9", func() { c09SplitClamp(c) })
 	c.rule("C09.10", func() { c09ValidatedIsSent(c) })
 	c.rule("C09.11", func() { c09NoUnsignedWrapInGuards(c) })
+	c.rule("C09.12", func() { c09CutsDrainedBeforeFinish(c) })
 }
 
 func c09Flight(c *Ctx) {
